@@ -404,7 +404,7 @@ static void point(Sink & sink, const Fn & fn, const typename Fn::Args & a)
   sweep<Fn, 1, 0>(fn, a, calls);
   sweep<Fn, 1, 1>(fn, a, calls);
   sweep<Fn, 1, 2>(fn, a, calls);
-  if constexpr (Fn::scalar) {
+  if constexpr (Fn::k2) {
     sweep<Fn, 2, 0>(fn, a, calls);
     sweep<Fn, 2, 1>(fn, a, calls);
     sweep<Fn, 2, 2>(fn, a, calls);
@@ -420,6 +420,7 @@ template<class G> static const char * gname() { return TN<G>::name(); }
 struct Base
 {
   static constexpr bool scalar = false, hasJ = false, hasH = false;
+  static constexpr bool k2 = false;  // also differentiate to second order (K = 2)
   static constexpr int plan    = LIGHT;
 };
 
@@ -670,6 +671,7 @@ struct FBMix : Base
 struct SBase : Base
 {
   static constexpr bool scalar = true;
+  static constexpr bool k2     = true;
 };
 static Poly half_sqnorm(int n)
 {
@@ -1053,6 +1055,142 @@ struct AGrp : Base
   static Args sample(Rng & r, int cls) { return {relem<SE2d>(r, cls), relem<SE2d>(r, 0)}; }
 };
 
+// ---- vector-valued callables differentiated to second order (ny = 2, 3) with two and three arguments of
+// different dofs: the stacked Hessian has one nx x nx block per output row, block j at columns j*nx .. j*nx+nx-1
+// with nx the TOTAL dof of the differentiated arguments.
+
+struct VBase : Base
+{
+  static constexpr bool k2 = true;
+};
+
+// quadratic map (Vector2d a, Vector3d b) -> Vector3d
+struct VQuad : VBase
+{
+  using Args                = std::tuple<V2d, V3d>;
+  static constexpr int plan = FULL;
+  Poly p;
+  VQuad()
+  {
+    // variables: a1 a2 b1 b2 b3
+    p = {{{0.0625, {2, 0, 0, 0, 0}}, {0.03125, {1, 0, 0, 1, 0}}, {0.125, {0, 0, 1, 0, 0}}, {0.0625, {0, 0, 0, 0, 2}}, {-0.25, {0, 1, 0, 0, 0}}},
+         {{0.03125, {0, 2, 0, 0, 0}}, {0.0625, {0, 1, 1, 0, 0}}, {0.0625, {0, 0, 0, 2, 0}}, {0.015625, {1, 0, 0, 0, 1}}, {0.125, {1, 0, 0, 0, 0}}},
+         {{0.0625, {1, 1, 0, 0, 0}}, {0.03125, {0, 0, 1, 1, 0}}, {0.0625, {0, 0, 2, 0, 0}}, {0.03125, {0, 1, 0, 0, 1}}, {-0.125, {0, 0, 0, 0, 1}}}};
+  }
+  std::string name() const { return "vquad.v2_v3"; }
+  V3d operator()(const V2d & a, const V3d & b) const
+  {
+    Eigen::Matrix<double, 5, 1> x;
+    x << a, b;
+    return V3d(poly_eval(p[0], x), poly_eval(p[1], x), poly_eval(p[2], x));
+  }
+  std::string ast(const Args &) const { return PolyNode(p, Cat(A(1), A(2))); }
+  Wits wits(const Args &) const { return {}; }
+  static Args sample(Rng & r, int cls) { return {rvec<2>(r, cls), rvec<3>(r, cls)}; }
+};
+
+// the SO3 action (R, v) -> R v, to second order
+struct VAct2 : VBase
+{
+  using Args                = std::tuple<SO3d, V3d>;
+  static constexpr int plan = FULL;
+  std::string name() const { return "act2.SO3d"; }
+  V3d operator()(const SO3d & x, const V3d & v) const { return x * v; }
+  std::string ast(const Args &) const { return Act(A(1), A(2)); }
+  Wits wits(const Args &) const { return {}; }
+  static Args sample(Rng & r, int cls) { return {relem<SO3d>(r, cls), rvecb<3>(r, cls, 8.0)}; }
+};
+
+// (SE2d x, Vector2d v, double s) -> (s/4 + 1/2) (x . v) + s^2/16 (1, -1)
+struct VSE2 : VBase
+{
+  using Args                = std::tuple<SE2d, V2d, double>;
+  static constexpr int plan = FULL;
+  Poly p;
+  VSE2()
+  {
+    // variables: s, a1, a2  (a = x . v)
+    p = {{{0.25, {1, 1, 0}}, {0.5, {0, 1, 0}}, {0.0625, {2, 0, 0}}}, {{0.25, {1, 0, 1}}, {0.5, {0, 0, 1}}, {-0.0625, {2, 0, 0}}}};
+  }
+  std::string name() const { return "vse2.SE2_v2_s"; }
+  V2d operator()(const SE2d & x, const V2d & v, const double & s) const
+  {
+    const V2d a = x * v;
+    const V3d y(s, a(0), a(1));
+    return V2d(poly_eval(p[0], y), poly_eval(p[1], y));
+  }
+  std::string ast(const Args &) const { return PolyNode(p, Cat(A(3), Act(A(1), A(2)))); }
+  Wits wits(const Args &) const { return {}; }
+  static Args sample(Rng & r, int cls) { return {relem<SE2d>(r, cls, 0.8), rvecb<2>(r, cls, 4.0), coord(r, cls == 3 ? 2 : cls)}; }
+};
+
+// (VectorXd w[3], SO3d g, Vector2d u) -> Vector2d :  out_k = c_k . (g . w) + q_k(w, u)      (dynamic-size argument)
+struct VDyn : VBase
+{
+  using Args = std::tuple<VXd, SO3d, V2d>;
+  Poly p;
+  VDyn()
+  {
+    // variables: a1 a2 a3 (= g . w), w1 w2 w3, u1 u2
+    p = {{{0.5, {1, 0, 0, 0, 0, 0, 0, 0}}, {-0.25, {0, 1, 0, 0, 0, 0, 0, 0}}, {0.0625, {0, 0, 0, 2, 0, 0, 0, 0}}, {0.03125, {0, 0, 0, 0, 1, 0, 1, 0}},
+          {0.0625, {0, 0, 0, 0, 0, 0, 0, 2}}, {0.125, {0, 0, 0, 0, 0, 1, 0, 0}}},
+         {{0.25, {0, 1, 0, 0, 0, 0, 0, 0}}, {0.75, {0, 0, 1, 0, 0, 0, 0, 0}}, {0.03125, {0, 0, 0, 1, 0, 1, 0, 0}}, {0.0625, {0, 0, 0, 0, 0, 0, 2, 0}},
+          {0.03125, {0, 0, 0, 0, 0, 1, 0, 1}}, {-0.125, {0, 0, 0, 0, 0, 0, 1, 0}}}};
+  }
+  std::string name() const { return "vdyn.wX_SO3_v2"; }
+  V2d operator()(const VXd & w, const SO3d & g, const V2d & u) const
+  {
+    Eigen::Matrix<double, 8, 1> y;
+    y << g * V3d(w), w, u;
+    return V2d(poly_eval(p[0], y), poly_eval(p[1], y));
+  }
+  std::string ast(const Args &) const { return PolyNode(p, Cat(Act(A(2), A(1)), Cat(A(1), A(3)))); }
+  Wits wits(const Args &) const { return {}; }
+  static Args sample(Rng & r, int cls)
+  {
+    const V3d w = rvecb<3>(r, cls, 7.0);
+    return {VXd(w), relem<SO3d>(r, cls, 0.8), rvec<2>(r, cls)};
+  }
+};
+
+// vector-valued callable with jacobian and hessian members (values unrelated to the true derivatives)
+struct AVec : VBase
+{
+  using Args                 = std::tuple<V2d, V3d>;
+  static constexpr bool hasJ = true, hasH = true;
+  static constexpr int plan  = ANA;
+  Poly p;
+  AVec()
+  {
+    p = {{{0.0625, {2, 0, 0, 0, 0}}, {0.0625, {0, 1, 0, 1, 0}}, {0.125, {0, 0, 1, 0, 0}}, {0.0625, {0, 0, 0, 0, 2}}},
+         {{0.0625, {0, 2, 0, 0, 0}}, {0.0625, {1, 0, 1, 0, 0}}, {0.0625, {0, 0, 0, 2, 0}}, {0.125, {0, 0, 0, 0, 1}}}};
+  }
+  std::string name() const { return "ana.vec.v2_v3"; }
+  V2d operator()(const V2d & a, const V3d & b) const
+  {
+    Eigen::Matrix<double, 5, 1> x;
+    x << a, b;
+    return V2d(poly_eval(p[0], x), poly_eval(p[1], x));
+  }
+  Eigen::Matrix<double, 2, 5> jacobian(const V2d & a, const V3d & b) const
+  {
+    Eigen::Matrix<double, 2, 5> J;
+    for (int i = 0; i < 2; ++i)
+      for (int j = 0; j < 5; ++j) J(i, j) = a(i) * (j + 1) - b(j % 3) / 3.0 + 11.0 * i;
+    return J;
+  }
+  Eigen::Matrix<double, 5, 10> hessian(const V2d & a, const V3d & b) const
+  {
+    Eigen::Matrix<double, 5, 10> H;
+    for (int i = 0; i < 5; ++i)
+      for (int j = 0; j < 10; ++j) H(i, j) = (i + 1) * 0.1 - (j + 1) / 7.0 + a(j % 2) * b(i % 3);
+    return H;
+  }
+  std::string ast(const Args &) const { return PolyNode(p, Cat(A(1), A(2))); }
+  Wits wits(const Args &) const { return {}; }
+  static Args sample(Rng & r, int cls) { return {rvec<2>(r, cls), rvec<3>(r, cls)}; }
+};
+
 // ------------------------------------------------------------------ selection
 
 // clang-format off
@@ -1134,6 +1272,16 @@ using F0 = SVV223;
 using F0 = SVVEq;
 #elif VH_FN == 39
 using F0 = SNest;
+#elif VH_FN == 40
+using F0 = VQuad;
+#elif VH_FN == 41
+using F0 = VAct2;
+#elif VH_FN == 42
+using F0 = VSE2;
+#elif VH_FN == 43
+using F0 = VDyn;
+#elif VH_FN == 44
+using F0 = AVec;
 #else
 #error "unknown VH_FN"
 #endif
